@@ -125,6 +125,8 @@ def gen_leaf_space(rng, thresholds):
     isint = rng.random() < 0.2
     dtype = rng.choice(INT_DTYPES if isint else FLOAT_DTYPES)
     shape = _shape_for(rng, n)
+    if n == 1 and kind == 'tensor' and rng.random() < 0.15:
+        shape = []          # tensor space with shape ()
     if kind == 'discr' and not isint and dtype not in ('float16',
                                                        'longdouble'):
         return {'k': 'discr', 'shape': shape, 'len': [1.0] * len(shape),
@@ -191,6 +193,10 @@ def generate(prop, rng, tier):
     npool = rng.randint(3, 5)
     cfg['layouts'] = [rng.choice(['C', 'C', 'F', 'strided', 'C'])
                       for _ in range(npool * 4)]
+    if rng.random() < 0.08:
+        # contiguous arrays at an odd address (BLAS wrappers copy those)
+        cfg['layouts'] = [l if rng.random() < 0.5 else 'unaligned'
+                          for l in cfg['layouts']]
     cfg['shared'] = []
     if struct != 'leaf':
         for _ in range(rng.randint(0, 2)):
@@ -249,12 +255,15 @@ FORMS = [
     ('S.multiply(xi,xj,out=xk)', 3), ('S.divide(xi,xj,out=xk)', 2),
     ('S.multiply(xi,xj)', 1), ('S.divide(xi,xj)', 1),
     ('xi.multiply(xj,out=xk)', 1), ('xi.divide(xj,out=xk)', 1),
+    ('rawj-xi', 1), ('rawj+xi', 1), ('other-precision', 1),
     ('xk.assign(xi)', 2), ('xi.copy()', 1), ('xk.set_zero()', 2),
     ('S.zero()', 1), ('S.one()', 1),
     ('X+x0', 1), ('x0+X', 1), ('X-x0', 1), ('x0-X', 1), ('X*x0', 1),
     ('X/x0', 1), ('X+=x0', 1), ('X-=x0', 1), ('X*=x0', 1), ('X/=x0', 1),
 ]
 INT_EXCLUDED = ('/', 'divide', '**')
+RAW_FORMS = ('xi+xj', 'xi-xj', 'xi*xj', 'xi/xj', 'xk+=xj', 'xk-=xj', 'xk*=xj',
+             'xk/=xj', 'rawj-xi', 'rawj+xi')
 
 
 def gen_op(rng, npool, isint, iscomplex, struct):
@@ -281,9 +290,19 @@ def gen_op(rng, npool, isint, iscomplex, struct):
         op['a'] = gen_scalar(rng, isint, iscomplex)
     if ',b,' in form:
         op['b'] = gen_scalar(rng, isint, iscomplex)
+    if form == 'other-precision':
+        op['a'] = gen_scalar(rng, isint, iscomplex)
+    if 'x0' in form and rng.random() < 0.25:
+        op['own'] = rng.randrange(3)
     if '**' in form:
         op['n'] = rng.choice([0, 1, 2, 3, 4, 5, 6, -1, -2, -3])
     op['fill'] = rng.choice(GARBAGE)
+    if form in RAW_FORMS and (rng.random() < 0.15 or form.startswith('raw')):
+        # the second operand as a raw array of the space's dtype and shape
+        # (a list of arrays on product spaces) instead of an element: odl
+        # wraps it without copying (seed a01: the caller's array must not be
+        # written to, nor aliased by the result)
+        op['raw'] = True
     if rng.random() < 0.2 and form not in ('a+xi', 'a-xi', 'a*xi', 'a/xi'):
         # the scalars as NumPy scalar types instead of Python numbers.  Not
         # np.float32 (odl adds two such scalars in float32, which is what the
@@ -553,6 +572,8 @@ def _move_to_shipped(plan):
     ts, tm = plan['thresholds']
 
     def move(leaf):
+        if leaf['shape'] == []:
+            return 1        # shape (): in the small regime under any knobs
         n = int(np.prod(leaf['shape']))
         if n < ts:
             n2 = n if n < SHIPPED[0] else SHIPPED[0] - 1
@@ -602,6 +623,68 @@ class Run(object):
     def viol(self, what, site, msg):
         raise Violation('C01', 'C01/{}/{}'.format(what, site), msg)
 
+    def step_other_precision(self, op):
+        """A lincomb on the twin space of the OTHER precision (float64 <->
+        float32, complex128 <-> complex64) between the operations on the
+        pool: the same process does arithmetic in both (seed b01: anything
+        odl keeps at module level must be keyed by precision too)."""
+        leaf = self.pool.cfg['leaf']
+        twin = {'float64': 'float32', 'float32': 'float64',
+                'complex128': 'complex64', 'complex64': 'complex128'}.get(
+                    leaf['dtype'])
+        if twin is None or leaf['k'] != 'tensor':
+            raise Reject('no twin precision')
+        c = dict(leaf)
+        c['dtype'] = twin
+        try:
+            S2 = SP.build_space(c)
+        except (ValueError, TypeError, KeyError) as e:
+            raise Reject('rejected_config: ' + str(e)[:80])
+        g = np_rng('twin', self.plan['xseed'], op.get('i', 0), op.get('k', 0))
+        shp = tuple(leaf['shape'])
+        with seams.allocator('zero'):
+            u, v, w = [S2.element(SP.rand_array(shp, twin, g))
+                       for _ in range(3)]
+        a = _scalar(op.get('a', 1))
+        a = a if not isinstance(a, complex) or np.dtype(twin).kind == 'c' \
+            else a.real
+        uv, vv = u.asarray().astype(np.clongdouble), \
+            v.asarray().astype(np.clongdouble)
+        fill_garbage(w.data, op['fill'], 5)
+        with seams.allocator(self.k1, salt=33):
+            try:
+                ret = S2.lincomb(a, u, 1, v, out=w)
+            except Exception as e:
+                self.viol('raise', 'other-precision/' + type(e).__name__,
+                          'lincomb on the twin space {!r} raised {}: {}'.format(
+                              S2, type(e).__name__, str(e)[:160]))
+        exp = a * uv + vv
+        eps = float(np.finfo(np.dtype(twin)).eps)
+        tol = 16 * eps * (abs(a) * np.abs(uv) + np.abs(vv) + np.abs(exp)) + \
+            1e-30
+        if ret is not w or np.any(np.abs(w.asarray() - exp) > tol):
+            self.viol('value', 'other-precision/' + self.regime(),
+                      'lincomb(a, u, 1, v, out=w) on the twin space {!r} of '
+                      'the other precision, executed between the operations '
+                      'on {}, is off by {:.3g}'.format(
+                          S2, self.describe(),
+                          float(np.max(np.abs(w.asarray() - exp)))))
+        self.ctx.fired('other-precision-lincomb')
+        self.ctx.event('other-precision', twin)
+
+    def _check_raw(self, raw, raw_bits, res_arrs, f):
+        ras = _raw_arrays(raw)
+        if [a_.tobytes() for a_ in ras] != raw_bits:
+            self.viol('raw-operand-modified', _form_class(f),
+                      '{} with a raw array as second operand on {} wrote '
+                      'into the caller\'s array'.format(f, self.describe()))
+        if '=' not in f and any(np.shares_memory(r_, a_)
+                                for r_ in res_arrs for a_ in ras):
+            self.viol('raw-operand-aliased', _form_class(f),
+                      '{} with a raw array as second operand on {}: the '
+                      'result shares memory with the caller\'s array'.format(
+                          f, self.describe()))
+
     def site(self, op, pattern):
         cfg = self.pool.cfg
         dk = np.dtype(cfg['leaf']['dtype']).kind
@@ -619,6 +702,8 @@ class Run(object):
     def step(self, op):
         pool = self.pool
         f = op['f']
+        if f == 'other-precision':
+            return self.step_other_precision(op)
         objs = pool.objs
         xi, xj, xk = objs[op['i']], objs[op['j']], objs[op['k']]
         a = _scalar(op.get('a', 1))
@@ -669,6 +754,11 @@ class Run(object):
         if 'x0' in f:
             x0 = pool.x0[op['i'] % len(pool.x0)]
             X = objs[op['k']]
+            if 'own' in op and hasattr(X, 'parts') and len(X.parts) > 0:
+                # the broadcast operand is one of X's own parts: for the
+                # in-place forms it changes while the parts are walked over
+                x0 = X.parts[op['own'] % len(X.parts)]
+                self.ctx.fired('broadcast-own-part')
             sel.update({'X': X, 'x0': x0})
         A_obj = sel[opnds[0]] if opnds[0] in sel else None
         B_obj = sel[opnds[1]] if opnds[1] in sel else None
@@ -720,6 +810,11 @@ class Run(object):
         if A_obj is not None and B_obj is not None and \
                 opnds[0] in sel and opnds[1] in sel:
             ka, kb = _keys(A_obj), _keys(B_obj)
+            # a base-space operand is broadcast over the parts
+            if len(ka) and nleaf % len(ka) == 0:
+                ka = list(ka) * (nleaf // len(ka))
+            if len(kb) and nleaf % len(kb) == 0:
+                kb = list(kb) * (nleaf // len(kb))
             if len(ka) == len(kb) == nleaf:
                 sameAB = [x_ == y_ for x_, y_ in zip(ka, kb)]
         if self.nf:
@@ -767,10 +862,27 @@ class Run(object):
             used = fill_garbage(leaves[k], op['fill'], t)
             self.ctx.fired('out-' + str(used))
         # ---- execute under garbage kind 1 -----------------------------------
+        raw = None
+        sel_call = sel
+        if op.get('raw') and f in RAW_FORMS and xj is not None:
+            raw = _raw_of(xj)
+        if f.startswith('raw'):
+            # reflected forms: the left operand has to be a list (an ndarray
+            # on the left would hand the call to NumPy: C17's subject)
+            if raw is None:
+                raise Reject('no raw form of this operand')
+            if isinstance(raw, np.ndarray):
+                sel_call = dict(sel, j=raw.tolist())
+                raw = None
+                self.ctx.fired('raw-list-operand')
+        if raw is not None:
+            sel_call = dict(sel, j=raw)
+            raw_bits = [a_.tobytes() for a_ in _raw_arrays(raw)]
+            self.ctx.fired('raw-array-operand')
         fired = {}
         try:
             with seams.allocator(self.k1, salt=31, fired=fired):
-                res = _apply(f, S, sel, a, b, n)
+                res = _apply(f, S, sel_call, a, b, n)
         except Exception as e:
             self.viol('raise', site + '/' + type(e).__name__,
                       '{} on {} raised {}: {}'.format(
@@ -793,6 +905,8 @@ class Run(object):
         res_arrs = elem_arrays(res)
         if len(res_arrs) != len(exp):
             raise HarnessError('leaf count mismatch')
+        if raw is not None:
+            self._check_raw(raw, raw_bits, res_arrs, f)
         worst = 0.0
         for ra, ev, mg in zip(res_arrs, exp, mags):
             if ra.dtype != np.dtype(pool.cfg['leaf']['dtype']):
@@ -843,9 +957,11 @@ class Run(object):
             fill_garbage(leaves[k], 'huge' if op['fill'] != 'huge' else 'nan',
                          t + 1)
         with seams.allocator(self.k2, salt=32):
-            res2 = _apply(f, S, sel, a, b, n)
+            res2 = _apply(f, S, sel_call, a, b, n)
         bits2 = b''.join(np.ascontiguousarray(r).tobytes()
                          for r in elem_arrays(res2))
+        if raw is not None:
+            self._check_raw(raw, raw_bits, elem_arrays(res2), f)
         if bits1 != bits2:
             self.viol('garbage-dependence', site,
                       '{} on {}: result depends on previous contents of the '
@@ -992,6 +1108,8 @@ def _spec(f, a, b, n):
         'xk.lincomb(a,xi)': ('lin1', ('i', 'i'), 'k', a, 0),
         'xi+xj': ('lin', ('i', 'j'), None, 1, 1),
         'xi-xj': ('lin', ('i', 'j'), None, 1, -1),
+        'rawj-xi': ('lin', ('j', 'i'), None, 1, -1),
+        'rawj+xi': ('lin', ('j', 'i'), None, 1, 1),
         'xi*xj': ('mul', ('i', 'j'), None, 1, 1),
         'xi/xj': ('div', ('i', 'j'), None, 1, 1),
         'xk+=xj': ('lin', ('k', 'j'), 'k', 1, 1),
@@ -1044,6 +1162,20 @@ def _spec(f, a, b, n):
     return s
 
 
+def _raw_of(x):
+    """A raw (non-element) stand-in for x: an array of the space's dtype
+    and shape, or a list of such arrays for a product space of leaves."""
+    if hasattr(x, 'parts'):
+        if any(hasattr(p_, 'parts') for p_ in x.parts) or len(x.parts) == 0:
+            return None
+        return [np.array(p_.asarray(), copy=True) for p_ in x.parts]
+    return np.array(x.asarray(), copy=True)
+
+
+def _raw_arrays(raw):
+    return raw if isinstance(raw, list) else [raw]
+
+
 def _apply(f, S, sel, a, b, n):
     xi, xj, xk = sel['i'], sel['j'], sel['k']
     X, x0 = sel.get('X'), sel.get('x0')
@@ -1063,6 +1195,10 @@ def _apply(f, S, sel, a, b, n):
         return xi + xj
     if f == 'xi-xj':
         return xi - xj
+    if f == 'rawj-xi':
+        return xj - xi      # xj is a list here: list - element -> __rsub__
+    if f == 'rawj+xi':
+        return xj + xi      # list + element -> __radd__
     if f == 'xi*xj':
         return xi * xj
     if f == 'xi/xj':
